@@ -75,6 +75,7 @@ table! {
     dup3_nocloexec = 292;
     fcntl_get_file_status = 72;
     fcntl_set_file_status = 72;
+    fcntl_dupfd_cloexec = 72;
     get_dents = 217;
     get_uid = 102;
     mkdir = 258;
@@ -338,6 +339,12 @@ fn prepare(w: W, p: &mut Prep, cx: &mut Ctx) {
             unsafe { close(p.fd2) };
             p.close_after.push(p.fd2);
         }
+        W::fcntl_dupfd_cloexec => {
+            let d = cx.devnull();
+            p.fd = p.own(d);
+            p.fd2 = p.var as i32; // lowest acceptable number: the kernel answers it when it is free
+            unsafe { close(p.fd2) };
+        }
         W::fcntl_get_file_status | W::fcntl_set_file_status | W::write | W::writev | W::stat_fd => {
             let d = cx.devnull();
             p.fd = p.own(d);
@@ -549,6 +556,7 @@ fn call(w: W, p: &mut Prep, cx: &Ctx) -> Out {
             Ok(f) => Out { kind: 0, val: i64::from(f.bits().value()), extra: 0 },
             Err(e) => err(e),
         },
+        W::fcntl_dupfd_cloexec => fdr(u::fcntl_dupfd_cloexec(fdv(p.fd), fdv(p.fd2))),
         W::fcntl_set_file_status => unit(u::fcntl_set_file_status(fdv(p.fd), OpenFlags::O_NONBLOCK)),
         W::get_dents => us(u::get_dents(fdv(p.fd), &mut p.buf)),
         W::get_uid => match u::get_uid() {
@@ -771,7 +779,8 @@ fn cleanup(w: W, p: &Prep, out: Out) {
     if p.real && out.kind == 0 {
         match w {
             W::open | W::open_mode | W::open_at | W::open_at_mode | W::open_raw | W::socket | W::epoll_create
-            | W::epoll_create_nocloexec | W::io_uring_setup | W::accept_unix | W::accept_inet => unsafe {
+            | W::epoll_create_nocloexec | W::io_uring_setup | W::accept_unix | W::accept_inet
+            | W::fcntl_dupfd_cloexec => unsafe {
                 close(out.val as i32);
             },
             W::mmap => unsafe {
